@@ -271,7 +271,25 @@ def propagate_new_locals(fn, known_names):
                 (stores if isinstance(n.ctx, (ast.Store, ast.Del)) else loads).setdefault(n.id, []).append(n)
         progressed = False
         for v in sorted(locs, key=lambda x: (getattr(stores[x][0], 'lineno', 0) if stores.get(x) else 0)):
-            if v in nested_names or not loads.get(v):
+            if v in nested_names:
+                # used inside a comprehension / lambda: only a pure value whose operands are never re-bound afterwards
+                # may be substituted there (it is evaluated later than its definition)
+                if len(stores.get(v, [])) != 1:
+                    continue
+                st0 = parent.get(id(stores[v][0]))
+                if not (isinstance(st0, ast.Assign) and len(st0.targets) == 1 and st0.targets[0] is stores[v][0] and is_pure(st0.value)):
+                    continue
+                ops = {n.id for n in ast.walk(st0.value) if isinstance(n, ast.Name)}
+                chs = {_chain(n) for n in ast.walk(st0.value) if isinstance(n, ast.Attribute)} - {None}
+                late = False
+                for n in ast.walk(fn):
+                    if getattr(n, "lineno", 0) > st0.lineno and ((isinstance(n, ast.Name) and isinstance(n.ctx, (ast.Store, ast.Del)) and n.id in ops)
+                                                                  or (isinstance(n, ast.Attribute) and isinstance(n.ctx, (ast.Store, ast.Del)) and _chain(n) in chs)):
+                        late = True
+                if late or any(isinstance(n, ast.Name) and n.id == v and isinstance(n.ctx, ast.Store) and n is not stores[v][0] for n in ast.walk(fn)):
+                    continue
+                loads[v] = [n for n in ast.walk(fn) if isinstance(n, ast.Name) and n.id == v and isinstance(n.ctx, ast.Load)]
+            if not loads.get(v):
                 continue
             if len(stores.get(v, [])) > 1:
                 # several definitions: fine when each is a plain `v = E` whose value is consumed by the statement that
@@ -958,6 +976,24 @@ def nested_def_to_lambda(module, known):
     return n_done
 
 
+def expand_ifexp(fn, ref_tests):
+    """`x = A if c else B` -> `if c: x = A else: x = B` when the reference has an if-statement on c (or its negation)"""
+    from .core import unparse
+    n_done = 0
+    for holder, blk in list(_all_blocks(fn)):
+        if isinstance(holder, FUNC + (ast.ClassDef,)) and holder is not fn:
+            continue
+        for i, st in enumerate(blk):
+            if isinstance(st, ast.Assign) and isinstance(st.value, ast.IfExp) and len(st.targets) == 1 and isinstance(st.targets[0], (ast.Name, ast.Attribute)):
+                t = st.value.test
+                if str(unparse(t, 400)) in ref_tests or any(str(unparse(x, 400)) in ref_tests for x in negations(t)):
+                    a = ast.copy_location(ast.Assign(targets=[copy.deepcopy(st.targets[0])], value=st.value.body, lineno=st.lineno), st)
+                    b = ast.copy_location(ast.Assign(targets=[copy.deepcopy(st.targets[0])], value=st.value.orelse, lineno=st.lineno), st)
+                    blk[i] = ast.fix_missing_locations(ast.copy_location(ast.If(test=t, body=[a], orelse=[b]), st))
+                    n_done += 1
+    return n_done
+
+
 def split_or_guards(fn, ref_tests):
     """`if a or b: T` (T leaves, no else) -> `if a: T` `if b: T`, and back - whichever spelling the reference has
     (ref_tests = the texts of the if-tests of this function on the pinned tree). Same control-flow graph."""
@@ -1197,5 +1233,58 @@ def method_value_to_closure(module, known):
             st.args.args = st.args.args[1:]
             pos = 1 if holder.body and isinstance(holder.body[0], ast.Expr) and isinstance(holder.body[0].value, ast.Constant) and isinstance(holder.body[0].value.value, str) else 0
             holder.body.insert(pos, st)
+            n_done += 1
+    return n_done
+
+
+# ---------------------------------------------------------------------------------------------------------
+# renamed private attributes
+
+_ref_total = None
+
+
+def _reference_self_attrs():
+    global _ref_total
+    if _ref_total is None:
+        p = os.path.join(_HERE, "reference", "total.json")
+        _ref_total = json.load(open(p)).get("self_attrs", {}) if os.path.exists(p) else {}
+    return _ref_total
+
+
+def recover_private_attrs(module):
+    """A class that stored `self._a` on the pinned tree, stores it no more, and now stores exactly one private
+    attribute the reference does not know: a consistent rename. The new name is mapped back, module-wide."""
+    ref = _reference_self_attrs()
+    if not ref:
+        return 0
+    n_done = 0
+    by_class = {}
+    for attr, classes in ref.items():
+        for c in classes:
+            rel, cq = c.split("::", 1)
+            if rel == module.relpath:
+                by_class.setdefault(cq, set()).add(attr)
+    all_ref_attrs = set(ref)
+    for cq, pinned in by_class.items():
+        if cq not in module.classes:
+            continue
+        cur = set()
+        for q, fn in module.funcs.items():
+            if q.startswith(cq + ".") and q.count(".") == cq.count(".") + 1:
+                for n in ast.walk(fn):
+                    if isinstance(n, ast.Attribute) and isinstance(n.ctx, ast.Store) and isinstance(n.value, ast.Name) and n.value.id == "self":
+                        cur.add(n.attr)
+        gone = sorted(a for a in pinned - cur if a.startswith("_") and not a.startswith("__"))
+        new = sorted(a for a in cur - pinned if a.startswith("_") and not a.startswith("__") and a not in all_ref_attrs)
+        if len(gone) == 1 and len(new) == 1:
+            old_name, new_name = gone[0], new[0]
+            # the old name must not be in use any more anywhere in the module
+            if any(isinstance(n, ast.Attribute) and n.attr == old_name for n in ast.walk(module.tree)):
+                continue
+            for n in ast.walk(module.tree):
+                if isinstance(n, ast.Attribute) and n.attr == new_name:
+                    n.attr = old_name
+                elif isinstance(n, ast.Constant) and n.value == new_name:
+                    pass
             n_done += 1
     return n_done
